@@ -239,14 +239,24 @@ impl Pools {
         }
     }
 
+    /// a country code; one time in three one of the few countries that have school holidays listed
+    pub fn pick_country(&self, rng: &mut Rng) -> String {
+        let school: Vec<&String> = self.data.school.keys().collect();
+        if !school.is_empty() && rng.chance(1, 3) {
+            (*rng.pick(&school)).clone()
+        } else {
+            rng.pick(&self.countries).clone()
+        }
+    }
+
     pub fn pick_holiday_probe(&self, rng: &mut Rng) -> (String, (i32, u32, u32), bool) {
-        let cc = rng.pick(&self.countries).clone();
+        let cc = self.pick_country(rng);
         self.pick_holiday_probe_for(rng, &cc)
     }
 
     /// a listed date, one of its neighbours, or an arbitrary date of 1990..2085
     pub fn pick_holiday_probe_for(&self, rng: &mut Rng, cc: &str) -> (String, (i32, u32, u32), bool) {
-        let school = rng.chance(1, 4);
+        let school = self.data.school.contains_key(cc) && rng.chance(1, 2) || rng.chance(1, 8);
         let set = if school { self.data.school.get(cc) } else { self.data.public.get(cc) };
         let listed: Option<NaiveDate> = set.filter(|s| !s.is_empty()).map(|s| *s.iter().nth(rng.usize_below(s.len())).unwrap());
         let d = match (rng.below(4), listed) {
